@@ -967,10 +967,10 @@ fn propagate_flags(buffer: &mut hb_buffer_t) {
 
         if clear_concat {
             mask &= !UNSAFE_TO_CONCAT;
+        }
 
-            for info in &mut buffer.info[start..end] {
-                info.mask = mask;
-            }
+        for info in &mut buffer.info[start..end] {
+            info.mask = mask;
         }
     });
 }
